@@ -26,6 +26,7 @@ META = {
                     "joint values in (0, 2e-6) are never generated (exponential cut-off band); if a solver returns one "
                     "the tolerance is 5e-6"],
 }
+REQUIRED_REACH = ['kinematics/arm_model.py:Arm.FK', 'kinematics/arm_model.py:Arm.IK', 'kinematics/arm_model.py:Arm.move', 'kinematics/arm_model.py:Arm.setArbitraryHome', 'kinematics/arm_model.py:Arm.restoreOriginalEE', 'kinematics/arm_model.py:Arm.randomPos', 'kinematics/arm_model.py:Arm.getJointTransforms', 'kinematics/arm_model.py:loadArmFromURDF']
 REQUIRED_CLAUSES = ["a.fk_value", "b.eepos", "c.base", "d.joint_frames", "d.tool_is_last", "e.jacobian", "e.jacobian_body", "f.after_query"]
 
 
